@@ -43,6 +43,8 @@ pub struct Report {
     pub exhaustive: Vec<String>,
     pub notes: Vec<String>,
     pub search_rounds: u64,
+    /// canonical request of the first case of (up to four) streams: re-run at the END of the run as a purity probe
+    pub first_ids: Vec<String>,
 }
 
 impl Report {
@@ -51,7 +53,7 @@ impl Report {
             property: property.into(), tier: tier.into(), seed, evaluations: 0, rule: rule.into(),
             distinct: HashSet::new(), streams: BTreeMap::new(), histogram: BTreeMap::new(), samples: vec![],
             divergences: vec![], n_divergences: 0, pred_failures: vec![], n_pred_failures: 0,
-            exhaustive: vec![], notes: vec![], search_rounds: 0,
+            exhaustive: vec![], notes: vec![], search_rounds: 0, first_ids: vec![],
         }
     }
     /// count one executed case; `nontrivial_id` = Some(canonical text) when the case is non-trivial by `rule`
@@ -60,6 +62,7 @@ impl Report {
         let c = self.streams.entry(stream.to_string()).or_insert(0);
         *c += 1;
         if let Some(id) = nontrivial_id {
+            if *c == 1 && self.first_ids.len() < 4 && id.contains(' ') && stream != "replay" { self.first_ids.push(id.to_string()); }
             let mut h = std::collections::hash_map::DefaultHasher::new();
             stream.hash(&mut h);
             id.hash(&mut h);
